@@ -88,8 +88,10 @@ def _coverage(ctx, trace, n_shapes):
     c = collections.Counter()
     hk_in_range_refused = None
     planned = 0
+    repeats = 0
     for line in open(trace):
         e = json.loads(line)
+        repeats += e["ev"] == "compute" and e.get("kind") == "repeat"
         planned += e["ev"] == "set" and e.get("route") == "plan"
         c[(e["ev"], e.get("alg", e.get("hash", "")))] += 1
         if e["ev"] == "hkdf" and e["hash"] in DIGEST and not e["ok"] and not e["panic"] and 10 <= e["n"] <= 255 * DIGEST[e["hash"]]:
@@ -98,6 +100,8 @@ def _coverage(ctx, trace, n_shapes):
             mx = 16 if e["alg"] == "CMAC" else DIGEST[e["hash"]]
             if not e["err"] and not e["panic"] and len(e["outs"]) != mx + 1:
                 raise vlib.Infra("C15: sweep does not cover 0..max")
+    if repeats == 0:
+        raise vlib.Infra("C15: no computation repeated after buffer reuse / scribbling")
     if planned != n_shapes:
         raise vlib.Infra("C15: %d of the %d keyset shapes enumerated by TLC were executed" % (planned, n_shapes))
     ctx.cov["keyset_shapes_executed"] = "%d/%d" % (planned, n_shapes)
@@ -129,6 +133,9 @@ def run(ctx):
         "to 3 keys quick / 4 thorough), over generated keysets (1..5 keys, mixed types, ENABLED/DISABLED/DESTROYED, "
         "extreme ids) and over keysets the library generates from its key templates; subtle.ComputeHKDF over hash x salt{nil,empty,...} x info x key x length incl. its bounds and "
         "Wycheproof inputs. Every event judged by TLC against PRF.tla / PRFSet.tla / HKDF.tla")
+    ctx.cov["buffers"] = ("every input handed to Tink (constructor keys/salts, PRF input, HKDF key/salt/info) lives in a driver-owned "
+                          "reused buffer scribbled over after every constructor and call; inputs are logged from pristine copies, "
+                          "outputs copied after the scribble; the earliest inputs of every PRF are recomputed at the end (kind=repeat)")
     ctx.assumptions += ["HMAC/SHA and the AES block are the JDK's (independent of Go's standard library)",
                         "'all inputs' is covered by length and content classes, not exhaustively",
                         "for outputs longer than 256 bytes the driver logs '=' when the repeated call returned identical bytes"]
